@@ -153,7 +153,7 @@ func init() {
 					us = append(us, core.Unit{Name: x, Weight: w})
 				}
 			}
-			us = append(us, core.Unit{Name: "leaves", Weight: 1})
+			us = append(us, core.Unit{Name: "leaves", Weight: 1}, core.Unit{Name: "ugroup", Weight: 1})
 			add(qast.TreeUnits("sem|c03l|c03l", len(treeSet("c03l")), 16), 3)
 			add(qast.TreeUnits("sem|c03s0|c03s1", len(treeSet("c03s1")), 16), 3)
 			if tier == "thorough" {
@@ -165,6 +165,32 @@ func init() {
 			if unit == "leaves" {
 				for _, l := range treeSet("c03l") {
 					w.Do(core.Case{Kind: "leaf", In: core.BStr(qast.Text(l, nil)), Tree: qast.Encode(l)})
+				}
+				return
+			}
+			if unit == "ugroup" {
+				// depth 3 where it matters for parenthesisation: a prefix operator over a binary group as an
+				// operand of the other (and the same) connective, on either side, also twice prefixed
+				ls := leavesC03Small(3)
+				for _, u := range boolUnaries {
+					for _, u2 := range append([]qast.UForm{{}}, boolUnaries...) {
+						for _, gop := range qast.BinaryOps {
+							for _, op := range qast.BinaryOps {
+								for _, swap := range []bool{false, true} {
+									g := qast.Un(u.Op, qast.Bin(gop, ls[1], ls[2]))
+									if u2.Op != "" {
+										g = qast.Un(u2.Op, g)
+									}
+									t := qast.Bin(op, ls[0], g)
+									if swap {
+										t = qast.Bin(op, g, ls[0])
+									}
+									w.Do(core.Case{Kind: "tree", In: core.BStr(qast.Text(t, &qast.PrintOpts{Full: true})), Tree: qast.Encode(t)})
+									w.Do(core.Case{Kind: "tree", In: core.BStr(qast.Text(t, nil)), Tree: qast.Encode(t)})
+								}
+							}
+						}
+					}
 				}
 				return
 			}
